@@ -7,9 +7,12 @@ import BluetoeModel.Adv.Lemmas
   disabled channel. Consecutive advertising events are separated by the advertising interval plus
   a delay of 0 to 10 ms, and start/stop/count controls bound the number of events."
 
-  The model (Model.lean) is the advertiser of advertising.hpp *with the fix*
+  The model (Model.lean) is the advertiser of advertising.hpp *with the fixes*
   `fixes/adv-01-next-channel-skip-loop.patch` (the skip loop of
-  `variable_advertising_channel_map::next_channel` tests the map bit).
+  `variable_advertising_channel_map::next_channel` tests the map bit) and
+  `fixes/adv-02-start-on-first-channel.patch` (`handle_start_advertising` selects the first enabled
+  channel, so that also the first advertising event after a (re)start visits every enabled channel:
+  `start_on_lowest`).
 
   Reading of the sentence in terms of the code: every call of `handle_adv_timeout` that schedules
   a PDU schedules it on the cyclic successor of the current channel in the ascending list of
@@ -56,19 +59,33 @@ theorem handleTimeout_inv (s : St) (hi : Inv s) (r : St × Option (Nat × Nat))
       rw [← h]; exact hi'
   · simp only [Option.some.injEq] at h; rw [← h]; exact hi1
 
-theorem startAdv_same (s : St) (n : Nat) : sameChan s (startAdv s n).1 := by
+/-- what every (re)start of advertising guarantees: invariant kept, map unchanged, and a PDU — if one
+    is scheduled — goes out without delay on the lowest enabled channel, which is then the current one -/
+def StartOk (s : St) (r : St × Option (Nat × Nat)) : Prop :=
+  Inv r.1 ∧ effMap r.1 = effMap s ∧
+    ∀ ch d, r.2 = some (ch, d) →
+      d = 0 ∧ ch = currentChannel r.1 ∧ ch = chanIdx r.1 + 37
+        ∧ (effMap s ≠ 0 → (enabledIdxs (effMap s)).head? = some (chanIdx r.1))
+
+theorem handleStart_ok (s : St) (hi : Inv s) : ∃ r, handleStart s = some r ∧ StartOk s r := by
+  obtain ⟨r, he, h1, h2, _, _, h5⟩ := handleStart_spec s hi
+  exact ⟨r, he, h1, h2, h5⟩
+
+theorem startAdv_ok (s : St) (hi : Inv s) (n : Nat) : ∃ r, startAdv s n = some r ∧ StartOk s r := by
   unfold startAdv
   simp only
   split
-  · exact sameChan.trans ⟨rfl, rfl, rfl, rfl, rfl⟩ (handleStart_same _)
-  · exact ⟨rfl, rfl, rfl, rfl, rfl⟩
+  · exact handleStart_ok { s with count := n, enabled := true }
+      (sameChan.inv (s := s) ⟨rfl, rfl, rfl, rfl, rfl⟩ hi)
+  · exact ⟨_, rfl, sameChan.inv (s := s) ⟨rfl, rfl, rfl, rfl, rfl⟩ hi, rfl, by intro ch d h; simp at h⟩
 
-theorem setDirected_same (s : St) (a : Nat) : sameChan s (setDirected s a).1 := by
+theorem setDirected_ok (s : St) (hi : Inv s) (a : Nat) : ∃ r, setDirected s a = some r ∧ StartOk s r := by
   unfold setDirected
   simp only
   split
-  · exact sameChan.trans ⟨rfl, rfl, rfl, rfl, rfl⟩ (handleStart_same _)
-  · exact ⟨rfl, rfl, rfl, rfl, rfl⟩
+  · exact handleStart_ok { s with dAddr := a, dValid := a != nullAddr }
+      (sameChan.inv (s := s) ⟨rfl, rfl, rfl, rfl, rfl⟩ hi)
+  · exact ⟨_, rfl, sameChan.inv (s := s) ⟨rfl, rfl, rfl, rfl, rfl⟩ hi, rfl, by intro ch d h; simp at h⟩
 
 theorem endEvents_same (s : St) : sameChan s (endEvents s) := by
   unfold endEvents; split <;> exact ⟨rfl, rfl, rfl, rfl, rfl⟩
@@ -128,12 +145,20 @@ theorem step_inv (s : St) (hi : Inv s) (op : Op) : Inv (step s op).1 := by
         exact ⟨hi.map_lt, hi.idx, hi.on, hi.pert, by show 20000 ≤ ms * 1000 ∧ ms * 1000 ≤ 10240000; omega⟩
       · exact hi
     · exact hi
-  | start => simp only [step]; split; exact hi; exact (startAdv_same s 0).inv hi
-  | startn n => simp only [step]; split; exact hi; exact (startAdv_same s n).inv hi
+  | start =>
+    simp only [step]; split; exact hi
+    obtain ⟨r, he, hok⟩ := startAdv_ok s hi 0
+    simp only [he]; exact hok.1
+  | startn n =>
+    simp only [step]; split; exact hi
+    obtain ⟨r, he, hok⟩ := startAdv_ok s hi n
+    simp only [he]; exact hok.1
   | stop =>
     simp only [step]; split; exact hi
     exact sameChan.inv (s := s) ⟨rfl, rfl, rfl, rfl, rfl⟩ hi
-  | llstart => exact (handleStart_same s).inv hi
+  | llstart =>
+    obtain ⟨r, he, hok⟩ := handleStart_ok s hi
+    simp only [step, he]; exact hok.1
   | llstop => exact (endEvents_same s).inv hi
   | timeout =>
     simp only [step]; split
@@ -149,7 +174,11 @@ theorem step_inv (s : St) (hi : Inv s) (op : Op) : Inv (step s op).1 := by
         · exact hi
       · exact hi
     · exact hi
-  | direct a => simp only [step]; split; exact (setDirected_same s a).inv hi; exact hi
+  | direct a =>
+    simp only [step]; split
+    · obtain ⟨r, he, hok⟩ := setDirected_ok s hi a
+      simp only [he]; exact hok.1
+    · exact hi
   | localAddr a => exact sameChan.inv (s := s) ⟨rfl, rfl, rfl, rfl, rfl⟩ hi
   | filter b => exact sameChan.inv (s := s) ⟨rfl, rfl, rfl, rfl, rfl⟩ hi
   | wladd a => exact sameChan.inv (s := s) ⟨rfl, rfl, rfl, rfl, rfl⟩ hi
@@ -260,40 +289,83 @@ theorem map_change_selects_lowest (s : St) (hi : Inv s) (hv : s.cfg.varMap = tru
   subst h
   simpa [effMap, chanIdx, hv] using hh
 
-/-! ### start of advertising: full statement, witness, partial statement -/
+/-! ### start of advertising -/
 
-/-- full strength: whenever the link layer (re)starts advertising, the first PDU goes to the
-    lowest enabled channel (so that also the first event visits every enabled channel) -/
-def start_on_lowest_full : Prop :=
-  ∀ (c : Cfg) (a : Nat) (ops : List Op) (ch d : Nat),
-    (step (finalState (init c a) ops) .llstart).2 = .sched (some (ch, d)) →
-    (enabledIdxs (effMap (finalState (init c a) ops))).head? = some (ch - 37)
+/-- the calls that (re)start advertising: `handle_start_advertising` by the link layer (power up,
+    connection lost), `start_advertising()` / `( count )`, `directed_advertising_address` -/
+def startsAdvertising : Op → Bool
+  | .llstart => true
+  | .start => true
+  | .startn _ => true
+  | .direct _ => true
+  | _ => false
 
-/-- the full statement is false of the code: with the default options, after PDUs on 37 and 38 a
-    connection is made (`handle_stop_advertising`) and lost again: advertising resumes on 38 -/
-theorem start_on_lowest_witness : ¬ start_on_lowest_full := by
-  intro h
-  have := h { varMap := false, varInterval := false, fixedMs := 100, autoStart := true, types := [.undirected] }
-    1 [.llstart, .timeout, .llstop] 38 0 (by decide)
-  revert this
+/-- **C24, the first event after a (re)start.**  In every reachable state with a non-empty map:
+    whenever a call that starts advertising schedules a PDU, it is sent without delay on the *lowest*
+    enabled channel, which becomes the current channel — so with `timeout_channel_successor` and
+    `cycle_visits_enabled_ascending_once` also the first advertising event after power up, stop,
+    count exhaustion or a lost connection visits every enabled channel once, in ascending order.
+    (This is the statement that fails on the code without fixes/adv-02: there advertising resumed
+    on the channel of the last PDU.)  The calls never fail (`.ub`). -/
+theorem start_on_lowest (c : Cfg) (a : Nat) (ops : List Op) (op : Op) (hop : startsAdvertising op = true) :
+    let s := finalState (init c a) ops
+    (step s op).2 ≠ .ub ∧
+    (effMap s ≠ 0 → ∀ ch d, (step s op).2 = .sched (some (ch, d)) →
+      d = 0 ∧ 37 ≤ ch ∧ (enabledIdxs (effMap s)).head? = some (ch - 37)
+        ∧ ch = currentChannel (step s op).1 ∧ effMap (step s op).1 = effMap s) := by
+  intro s
+  have hi : Inv s := inv_reachable c a ops
+  have fin : ∀ r : St × Option (Nat × Nat), StartOk s r → effMap s ≠ 0 → ∀ ch d, r.2 = some (ch, d) →
+      d = 0 ∧ 37 ≤ ch ∧ (enabledIdxs (effMap s)).head? = some (ch - 37)
+        ∧ ch = currentChannel r.1 ∧ effMap r.1 = effMap s := by
+    intro r hok hm ch d h
+    obtain ⟨h1, h2, h3, h4⟩ := hok.2.2 ch d h
+    refine ⟨h1, by omega, ?_, h2, hok.2.1⟩
+    have := h4 hm
+    rw [this, h3]; simp
+  cases op with
+  | llstart =>
+    obtain ⟨r, he, hok⟩ := handleStart_ok s hi
+    simp only [step, he]
+    refine ⟨by simp, fun hm ch d h => fin r hok hm ch d ?_⟩
+    simpa using h
+  | start =>
+    obtain ⟨r, he, hok⟩ := startAdv_ok s hi 0
+    simp only [step, he]
+    split
+    · exact ⟨by simp, fun _ ch d h => by simp at h⟩
+    · refine ⟨by simp, fun hm ch d h => fin r hok hm ch d ?_⟩
+      simpa using h
+  | startn n =>
+    obtain ⟨r, he, hok⟩ := startAdv_ok s hi n
+    simp only [step, he]
+    split
+    · exact ⟨by simp, fun _ ch d h => by simp at h⟩
+    · refine ⟨by simp, fun hm ch d h => fin r hok hm ch d ?_⟩
+      simpa using h
+  | direct a' =>
+    obtain ⟨r, he, hok⟩ := setDirected_ok s hi a'
+    simp only [step, he]
+    split
+    · refine ⟨by simp, fun hm ch d h => fin r hok hm ch d ?_⟩
+      simpa using h
+    · exact ⟨by simp, fun _ ch d h => by simp at h⟩
+  | _ => simp [startsAdvertising] at hop
+
+/-- non-vacuity / the former witness: default options, PDUs on 37 and 38, a connection is made
+    (`handle_stop_advertising`) and lost again: advertising restarts on 37 (without the fix: 38) -/
+example :
+    let c : Cfg := { varMap := false, varInterval := false, fixedMs := 100, autoStart := true, types := [.undirected] }
+    ((run (init c 1) [.llstart, .timeout, .llstop, .llstart, .timeout]).map (·.2)) =
+      [.sched (some (37, 0)), .sched (some (38, 0)), .ok, .sched (some (37, 0)), .sched (some (38, 0))] := by
   decide
 
-/-- what is true: `handle_start_advertising` transmits without delay on the *current* channel, and
-    does not move it; the current channel is the lowest enabled one initially, after every map
-    change (`map_change_selects_lowest`) and after every completed event -/
-theorem start_on_current_partial (s : St) (ch d : Nat)
-    (h : (handleStart s).2 = some (ch, d)) :
-    ch = currentChannel s ∧ d = 0 ∧ sameChan s (handleStart s).1 := by
-  refine ⟨?_, ?_, handleStart_same s⟩
-  all_goals
-    unfold handleStart at h
-    simp only at h
-    split at h
-    · simp only [Option.some.injEq, Prod.mk.injEq] at h
-      first
-      | exact h.2.symm
-      | rw [← h.1]; exact (startGate_same s).currentChannel
-    · simp at h
+/-- the same on the variable map {38, 39} after stop / start -/
+example :
+    let c : Cfg := { varMap := true, varInterval := true, fixedMs := 100, autoStart := false, types := [.undirected] }
+    ((run (init c 1) [.remove 37, .start, .llstart, .timeout, .stop, .timeout, .start]).map (·.2)) =
+      [.ok, .sched none, .sched (some (38, 0)), .sched (some (39, 0)), .ok, .sched none, .sched (some (38, 0))] := by
+  decide
 
 /-! ### start / stop / count -/
 
@@ -387,15 +459,34 @@ theorem timeoutGate_budget (s : St) (ha : s.cfg.autoStart = false) (b : Nat) (h 
     · simp [he]; omega
   · exact ⟨b, hb, by simp, hc⟩
 
-theorem handleStart_budget (s : St) (ha : s.cfg.autoStart = false) (b : Nat) (h : budget s = some b) :
-    ∃ b', budget (handleStart s).1 = some b' ∧ (if (handleStart s).2.isSome then 1 else 0) + b' ≤ b ∧
-      (handleStart s).1.cfg = s.cfg := by
+theorem selectFirst_frame (s s' : St) (h : selectFirst s = some s') : ∃ i, s' = { s with idx := i } := by
+  unfold selectFirst at h
+  split at h
+  · split at h
+    · simp only [Option.map_eq_some_iff] at h
+      obtain ⟨f, _, hf⟩ := h; exact ⟨f, hf.symm⟩
+    · simp only [Option.some.injEq] at h; exact ⟨s.idx, h.symm⟩
+  · simp only [Option.some.injEq] at h; exact ⟨37, h.symm⟩
+
+theorem handleStart_budget (s : St) (ha : s.cfg.autoStart = false) (b : Nat) (h : budget s = some b)
+    (r : St × Option (Nat × Nat)) (hr : handleStart s = some r) :
+    ∃ b', budget r.1 = some b' ∧ (if r.2.isSome then 1 else 0) + b' ≤ b ∧ r.1.cfg = s.cfg := by
   obtain ⟨b', h1, h2, h3⟩ := startGate_budget s ha b h
-  unfold handleStart
-  simp only
-  split
-  · rename_i hg; simp [hg] at h2; exact ⟨b', h1, by simpa using h2, h3⟩
-  · rename_i hg; simp [hg] at h2; exact ⟨b', h1, by simpa using h2, h3⟩
+  unfold handleStart at hr
+  simp only at hr
+  split at hr
+  · rename_i hg
+    simp only [hg, if_true] at h2
+    simp only [Option.map_eq_some_iff] at hr
+    obtain ⟨s', hs', hr⟩ := hr
+    obtain ⟨i, hi⟩ := selectFirst_frame _ _ hs'
+    subst hr; subst hi
+    exact ⟨b', h1, by simpa using h2, h3⟩
+  · rename_i hg
+    simp [hg] at h2
+    simp only [Option.some.injEq] at hr
+    subst hr
+    exact ⟨b', h1, by simpa using h2, h3⟩
 
 theorem nextChannelAndDelay_frame (s : St) (x : St × Nat) (h : nextChannelAndDelay s = some x) :
     x.1.cfg = s.cfg ∧ x.1.enabled = s.enabled ∧ x.1.count = s.count := by
@@ -470,10 +561,12 @@ theorem step_budget (s : St) (ha : s.cfg.autoStart = false) (b : Nat) (h : budge
     simp only [step, ha, Bool.false_eq_true, if_false]
     exact ⟨0, by simp [budget, stopAdv, ha], by simp [pduOf], by first | rfl | trivial⟩
   | llstart =>
-    obtain ⟨b', h1, h2, h3⟩ := handleStart_budget s ha b h
-    refine ⟨b', h1, ?_, h3⟩
-    simp only [step]
-    cases ho : (handleStart s).2 <;> simp [ho, pduOf] at h2 ⊢ <;> omega
+    simp only [step]; split
+    · rename_i s' o hr
+      obtain ⟨b', h1, h2, h3⟩ := handleStart_budget s ha b h (s', o) hr
+      refine ⟨b', h1, ?_, h3⟩
+      cases o <;> simp [pduOf] at h2 ⊢ <;> omega
+    · exact same
   | llstop =>
     simp only [step, endEvents, ha, Bool.false_eq_true, if_false]
     exact ⟨0, by simp [budget, ha], by simp [pduOf], by first | rfl | trivial⟩
@@ -496,14 +589,19 @@ theorem step_budget (s : St) (ha : s.cfg.autoStart = false) (b : Nat) (h : budge
     · exact same
   | direct a =>
     simp only [step]; split
-    · unfold setDirected
-      simp only
-      split
-      · obtain ⟨b', h1, h2, h3⟩ := handleStart_budget { s with dAddr := a, dValid := a != nullAddr } ha b h
-        refine ⟨b', h1, ?_, h3⟩
-        cases ho : (handleStart { s with dAddr := a, dValid := a != nullAddr }).2 <;>
-          simp [ho, pduOf] at h2 ⊢ <;> omega
-      · exact ⟨b, h, by simp [pduOf], rfl⟩
+    · split
+      · rename_i s' o hr
+        unfold setDirected at hr
+        simp only at hr
+        split at hr
+        · obtain ⟨b', h1, h2, h3⟩ :=
+            handleStart_budget { s with dAddr := a, dValid := a != nullAddr } ha b h (s', o) hr
+          refine ⟨b', h1, ?_, h3⟩
+          cases o <;> simp [pduOf] at h2 ⊢ <;> omega
+        · simp only [Option.some.injEq, Prod.mk.injEq] at hr
+          obtain ⟨g1, g2⟩ := hr; subst g1; subst g2
+          exact ⟨b, h, by simp [pduOf], rfl⟩
+      · exact same
     · exact same
   | localAddr a => exact ⟨b, h, by simp [step, pduOf], rfl⟩
   | filter f => exact ⟨b, h, by simp [step, pduOf], rfl⟩
@@ -548,20 +646,23 @@ theorem count_bounds_pdus (s : St) (ha : s.cfg.autoStart = false) (b : Nat) (h :
 
 /-- `start_advertising( n )` permits exactly `n` PDUs (including the one it may schedule itself),
     `stop_advertising` none -/
-theorem startn_budget (s : St) (ha : s.cfg.autoStart = false) (n : Nat) (hn : n ≠ 0)
+theorem startn_budget (s : St) (hi : Inv s) (ha : s.cfg.autoStart = false) (n : Nat) (hn : n ≠ 0)
     (ops : List Op) (hs : ∀ op ∈ ops, isStart op = false) :
     pdus (run s (.startn n :: ops)) ≤ n := by
   have hb : budget { s with count := n, enabled := true } = some n := by simp [budget, ha, hn]
   have key : ∃ b', budget (step s (.startn n)).1 = some b' ∧ pduOf (step s (.startn n)).2 + b' ≤ n
       ∧ (step s (.startn n)).1.cfg = s.cfg := by
-    simp only [step, ha, hn, Bool.false_eq_true, false_or, if_false]
-    unfold startAdv
-    simp only
-    split
-    · obtain ⟨b', h1, h2, h3⟩ := handleStart_budget { s with count := n, enabled := true } ha n hb
+    obtain ⟨r, he, _⟩ := startAdv_ok s hi n
+    simp only [step, ha, hn, Bool.false_eq_true, false_or, if_false, he]
+    unfold startAdv at he
+    simp only at he
+    split at he
+    · obtain ⟨b', h1, h2, h3⟩ := handleStart_budget { s with count := n, enabled := true } ha n hb r he
       refine ⟨b', h1, ?_, h3⟩
-      cases ho : (handleStart { s with count := n, enabled := true }).2 <;> simp [ho, pduOf] at h2 ⊢ <;> omega
-    · exact ⟨n, hb, by simp [pduOf], rfl⟩
+      cases ho : r.2 <;> simp [ho, pduOf] at h2 ⊢ <;> omega
+    · simp only [Option.some.injEq] at he
+      subst he
+      exact ⟨n, hb, by simp [pduOf], rfl⟩
   obtain ⟨b', h1, h2, h3⟩ := key
   have := count_bounds_pdus (step s (.startn n)).1 (by rw [h3]; exact ha) b' h1 ops hs
   simp only [run, pdus]
